@@ -305,6 +305,10 @@ class Model(object):
         if 'parent_provider_uuid' in b:
             np_ = b['parent_provider_uuid']
             if np_ is not None:
+                # a uuid is case-insensitive; the generator uses another
+                # spelling only for loop attempts, which are refused (400)
+                # whether or not the store finds the provider under it
+                np_ = np_.lower()
                 if np_ not in self.providers:
                     return Expect(400)
                 if np_ in self.subtree(u):
